@@ -21,66 +21,82 @@ namespace SlipVerif.Compile
     particular after the placeholders were patched by later `defun`s — the code object evaluates
     exactly like the source form evaluated directly in `Φ`. So a forward call passes its
     arguments: the right-hand side is the direct evaluation of the call *with* its arguments. -/
-theorem compile_correct {Φ : FunTable} {σ σ' : Store} (e : Expr)
-    (hext : Ext (compile σ e).2 σ') (hrel : Rel Φ σ') (fuel : Nat) (env : Env) :
-    evalCode σ' fuel env (compile σ e).1 = eval Φ fuel env e :=
-  evalCode_eq_eval hrel fuel env ((compile_compiled σ e).mono hext)
+theorem compile_correct {Φ : FunTable} {G : Env} {σ σ' : Store} (e : Expr)
+    (hext : Ext (compile σ e).2 σ') (hrel : Rel Φ σ') (hvrel : VRel G σ') (fuel : Nat) (env : Env) :
+    evalCode σ' fuel env (compile σ e).1 = eval Φ G fuel env e :=
+  evalCode_eq_eval hrel hvrel fuel env ((compile_compiled σ e).mono hext)
 
 /-- the hypotheses of `compile_correct` are satisfiable by the forward-reference situation:
     `(g x)` is compiled while `g` is unknown, then `g` is defined -/
 example : ∃ (Φ : FunTable) (σ σ' : Store) (e : Expr),
-    Ext (compile σ e).2 σ' ∧ Rel Φ σ' ∧ eval Φ 10 [] e = .val (.int 8) := by
+    Ext (compile σ e).2 σ' ∧ Rel Φ σ' ∧ VRel [] σ' ∧ eval Φ [] 10 [] e = .val (.int 8) := by
   refine ⟨[("g", .simple ["x"] (.prim .add (.var "x") (.const 1)))], Store.empty,
     define (compile Store.empty (.call "g" [.const 7])).2 "g" (.simple ["x"] (.prim .add (.var "x") (.const 1))),
-    .call "g" [.const 7], define_ext _ _ _, define_rel (compile_rel rel_empty _) _ _, by decide⟩
+    .call "g" [.const 7], define_ext _ _ _, define_rel (compile_rel rel_empty _) (compile_vrel vrel_empty _) _ _,
+    define_vrel (compile_rel rel_empty _) (compile_vrel vrel_empty _) _ _, by decide⟩
 
 /-- Histories: the compiling top-level loop computes what the direct one computes, whatever the
     interleaving of definitions, redefinitions, evaluations and re-evaluations of kept code
     objects. (`hist`/`objs`: the expression forms evaluated so far and their code objects.) -/
 theorem runC_eq_run (fuel : Nat) :
-    ∀ (forms : List Form) {Φ : FunTable} {σ : Store} {hist : List Expr} {objs : List Code},
-      Rel Φ σ → CompiledList σ hist objs → runC fuel σ objs forms = run fuel Φ hist forms := by
+    ∀ (forms : List Form) {Φ : FunTable} {G : Env} {σ : Store} {hist : List Expr} {objs : List Code},
+      Rel Φ σ → VRel G σ → CompiledList σ hist objs → runC fuel σ objs forms = run fuel Φ G hist forms := by
   intro forms
   induction forms with
   | nil => intros; simp [runC, run]
   | cons form rest ih =>
-    intro Φ σ hist objs hrel hobjs
+    intro Φ G σ hist objs hrel hvrel hobjs
     cases form with
     | defun f binds lam =>
       have hb : evalBinds (fun e => evalCode σ fuel [] (embed e)) binds
-          = evalBinds (fun e => eval Φ fuel [] e) binds := by
-        have := evalBinds_congr (ev₁ := fun e => evalCode σ fuel [] (embed e)) (ev₂ := fun e => eval Φ fuel [] e) id
-          (fun a => evalCode_eq_eval hrel fuel [] (embed_compiled σ a)) binds
+          = evalBinds (fun e => eval Φ G fuel [] e) binds := by
+        have := evalBinds_congr (ev₁ := fun e => evalCode σ fuel [] (embed e)) (ev₂ := fun e => eval Φ G fuel [] e) id
+          (fun a => evalCode_eq_eval hrel hvrel fuel [] (embed_compiled σ a)) binds
         simpa using this
       simp only [runC, run, hb]
       split
       · next env _ =>
-        rw [ih (define_rel hrel (norm f) { lam with env := env })
+        rw [ih (define_rel hrel hvrel (norm f) { lam with env := env })
+          (define_vrel hrel hvrel (norm f) { lam with env := env })
           (hobjs.mono (define_ext σ (norm f) { lam with env := env }))]
-      · rw [ih hrel hobjs]
+      · rw [ih hrel hvrel hobjs]
     | undef f =>
       simp only [runC, run]
-      rw [ih (undefine_rel hrel (norm f)) (hobjs.mono (undefine_ext σ (norm f)))]
+      rw [ih (undefine_rel hrel (norm f)) (undefine_vrel hvrel (norm f)) (hobjs.mono (undefine_ext σ (norm f)))]
+    | setvar k x e =>
+      simp only [runC, run, gval_eq hvrel]
+      split
+      · rw [ih hrel hvrel hobjs]
+      · have hrel' := compile_rel hrel e
+        have hvrel' := compile_vrel hvrel e
+        have hc := compile_compiled σ e
+        have hobjs' := hobjs.mono (compile_ext σ e)
+        rw [evalCode_eq_eval hrel' hvrel' fuel [] hc]
+        split
+        · next v _ =>
+          rw [ih (setVar_rel hrel' x v) (setVar_vrel hvrel' x v) (hobjs'.mono (setVar_ext _ x v))]
+        · rw [ih hrel' hvrel' hobjs']
     | expr e =>
       simp only [runC, run]
       have hrel' := compile_rel hrel e
+      have hvrel' := compile_vrel hvrel e
       have hc := compile_compiled σ e
-      rw [evalCode_eq_eval hrel' fuel [] hc]
+      rw [evalCode_eq_eval hrel' hvrel' fuel [] hc]
       have hobjs' : CompiledList (compile σ e).2 (hist ++ [e]) (objs ++ [cacheAll (compile σ e).2 (compile σ e).1]) :=
         compiledList_append (hobjs.mono (compile_ext σ e)) (.cons (cacheAll_compiled _ hc) .nil)
-      rw [ih hrel' hobjs']
+      rw [ih hrel' hvrel' hobjs']
     | again j =>
       simp only [runC, run]
       rcases compiledList_getElem? hobjs j with ⟨h₁, h₂⟩ | ⟨e, c, h₁, h₂, hc⟩
       · simp only [h₁, h₂]
-        rw [ih hrel hobjs]
+        rw [ih hrel hvrel hobjs]
       · simp only [h₁, h₂]
-        rw [evalCode_eq_eval hrel fuel [] hc, ih hrel (compiledList_set hobjs h₁ (cacheAll_compiled σ hc))]
+        rw [evalCode_eq_eval hrel hvrel fuel [] hc, ih hrel hvrel (compiledList_set hobjs h₁ (cacheAll_compiled σ hc))]
 
 /-- a whole program run through compilation from the empty store means what it means directly -/
 theorem runC_correct (fuel : Nat) (forms : List Form) :
-    runC fuel Store.empty [] forms = run fuel [] [] forms :=
-  runC_eq_run fuel forms rel_empty .nil
+    runC fuel Store.empty [] forms = run fuel [] [] [] forms :=
+  runC_eq_run fuel forms rel_empty vrel_empty .nil
 
 /-- the pre-survey example: `(defun g (x) (h x 2)) (defun h (a b) (+ a b)) (g 1)` is 3 —
     the forward call `(h x 2)` passes both arguments -/
@@ -98,14 +114,14 @@ def defForm (d : String × Lam) : Form := .defun d.1 [] d.2
 /-- **defs_commute.** For definitions with distinct names, every permutation of the definitions
     followed by the same body (any forms: calls, mutual recursion through the definitions,
     re-evaluations, even redefinitions) gives the same results for the body. -/
-theorem defs_commute (fuel : Nat) (Φ₀ : FunTable) (hist : List Expr)
+theorem defs_commute (fuel : Nat) (Φ₀ : FunTable) (G : Env) (hist : List Expr)
     (defs defs' : List (String × Lam)) (body : List Form)
     (hperm : defs.Perm defs') (hnd : (defs.map (fun d => norm d.1)).Nodup) :
-    (run fuel Φ₀ hist (defs'.map defForm ++ body)).drop defs'.length
-      = (run fuel Φ₀ hist (defs.map defForm ++ body)).drop defs.length := by
+    (run fuel Φ₀ G hist (defs'.map defForm ++ body)).drop defs'.length
+      = (run fuel Φ₀ G hist (defs.map defForm ++ body)).drop defs.length := by
   rw [run_defs_aux fuel defForm (fun _ => rfl), run_defs_aux fuel defForm (fun _ => rfl)]
   rw [List.drop_left' (by simp), List.drop_left' (by simp)]
-  exact run_congr fuel (fun f => (lookup_defs_perm hperm hnd Φ₀ f).symm) hist body
+  exact run_congr fuel (fun f => (lookup_defs_perm hperm hnd Φ₀ f).symm) G hist body
 
 /-- the same through compilation: whatever order the definitions are compiled in — callers before
     callees (placeholders, patched later) or after — the body results are the same -/
@@ -114,7 +130,7 @@ theorem defs_commute_compiled (fuel : Nat) (defs defs' : List (String × Lam)) (
     (runC fuel Store.empty [] (defs'.map defForm ++ body)).drop defs'.length
       = (runC fuel Store.empty [] (defs.map defForm ++ body)).drop defs.length := by
   rw [runC_correct, runC_correct]
-  exact defs_commute fuel [] [] defs defs' body hperm hnd
+  exact defs_commute fuel [] [] [] defs defs' body hperm hnd
 
 /-- mutual recursion, callers first or callees first:
     `(defun ev (n) (if (< n 1) 1 (od (- n 1))))  (defun od (n) (if (< n 1) 0 (ev (- n 1))))` -/
@@ -133,32 +149,32 @@ example :
     the same function table (equal stores in particular, or the store before and after placeholders
     were added by other compilations) give the same result. Evaluation itself returns only the
     outcome: `evalCode` cannot change the code object or the store. -/
-theorem reeval_stable {Φ : FunTable} {σ₁ σ₂ : Store} {e : Expr} {c₁ c₂ : Code}
-    (h₁ : Rel Φ σ₁) (h₂ : Rel Φ σ₂) (hc₁ : Compiled σ₁ e c₁) (hc₂ : Compiled σ₂ e c₂)
+theorem reeval_stable {Φ : FunTable} {G : Env} {σ₁ σ₂ : Store} {e : Expr} {c₁ c₂ : Code}
+    (h₁ : Rel Φ σ₁) (hv₁ : VRel G σ₁) (h₂ : Rel Φ σ₂) (hv₂ : VRel G σ₂) (hc₁ : Compiled σ₁ e c₁) (hc₂ : Compiled σ₂ e c₂)
     (fuel : Nat) (env : Env) :
     evalCode σ₁ fuel env c₁ = evalCode σ₂ fuel env c₂ := by
-  rw [evalCode_eq_eval h₁ fuel env hc₁, evalCode_eq_eval h₂ fuel env hc₂]
+  rw [evalCode_eq_eval h₁ hv₁ fuel env hc₁, evalCode_eq_eval h₂ hv₂ fuel env hc₂]
 
 /-- the in-place caching of resolved call sites never changes a result -/
-theorem caching_invisible {Φ : FunTable} {σ : Store} {e : Expr} {c : Code}
-    (h : Rel Φ σ) (hc : Compiled σ e c) (fuel : Nat) (env : Env) :
+theorem caching_invisible {Φ : FunTable} {G : Env} {σ : Store} {e : Expr} {c : Code}
+    (h : Rel Φ σ) (hv : VRel G σ) (hc : Compiled σ e c) (fuel : Nat) (env : Env) :
     evalCode σ fuel env (cacheAll σ c) = evalCode σ fuel env c :=
-  reeval_stable h h (cacheAll_compiled σ hc) hc fuel env
+  reeval_stable h hv h hv (cacheAll_compiled σ hc) hc fuel env
 
 /-- caching really rewrites: the `late` call site of `(g 7)` becomes a pointer to the cell of `g` -/
 example : ∃ (Φ : FunTable) (σ : Store) (e : Expr) (c : Code),
     Rel Φ σ ∧ Compiled σ e c ∧ c = .call .late "g" [.const 7] ∧ cacheAll σ c = .call (.cell 0) "g" [.const 7] := by
   refine ⟨[("g", .simple ["x"] (.var "x"))], define Store.empty "g" (.simple ["x"] (.var "x")), .call "g" [.const 7],
-    embed (.call "g" [.const 7]), define_rel rel_empty _ _, embed_compiled _ _, rfl, rfl⟩
+    embed (.call "g" [.const 7]), define_rel rel_empty vrel_empty _ _, embed_compiled _ _, rfl, rfl⟩
 
 /-- **reeval_stable (histories).** Evaluating the kept code object of the `j`-th form `k` more times
     gives `k` times the result of evaluating the form directly in the current table — the first
     and the hundredth evaluation agree, although each evaluation rewrites the object. -/
-theorem reeval_k {Φ : FunTable} {σ : Store} {hist : List Expr} {objs : List Code}
-    (hrel : Rel Φ σ) (hobjs : CompiledList σ hist objs) {j : Nat} {e : Expr} (hj : hist[j]? = some e)
+theorem reeval_k {Φ : FunTable} {G : Env} {σ : Store} {hist : List Expr} {objs : List Code}
+    (hrel : Rel Φ σ) (hvrel : VRel G σ) (hobjs : CompiledList σ hist objs) {j : Nat} {e : Expr} (hj : hist[j]? = some e)
     (fuel k : Nat) :
-    runC fuel σ objs (List.replicate k (.again j)) = List.replicate k (eval Φ fuel [] e) := by
-  rw [runC_eq_run fuel _ hrel hobjs]
+    runC fuel σ objs (List.replicate k (.again j)) = List.replicate k (eval Φ G fuel [] e) := by
+  rw [runC_eq_run fuel _ hrel hvrel hobjs]
   induction k with
   | zero => simp [run]
   | succ k ih => simp only [List.replicate_succ, run, hj, ih]
@@ -169,11 +185,11 @@ theorem reeval_k {Φ : FunTable} {σ : Store} {hist : List Expr} {objs : List Co
     `f` compiled against the old body or against the placeholder — evaluated after the
     (re)definition behaves like its source form in the table where `f` has the new definition
     (parameters, `&optional`/`&key` defaults, `&aux` init forms and body). -/
-theorem redefinition_takes_effect {Φ : FunTable} {σ : Store} {e : Expr} {c : Code}
-    (hrel : Rel Φ σ) (hc : Compiled σ e c) (f : String) (lam : Lam)
+theorem redefinition_takes_effect {Φ : FunTable} {G : Env} {σ : Store} {e : Expr} {c : Code}
+    (hrel : Rel Φ σ) (hvrel : VRel G σ) (hc : Compiled σ e c) (f : String) (lam : Lam)
     (fuel : Nat) (env : Env) :
-    evalCode (define σ f lam) fuel env c = eval ((f, lam) :: Φ) fuel env e :=
-  evalCode_eq_eval (define_rel hrel f lam) fuel env (hc.mono (define_ext σ f lam))
+    evalCode (define σ f lam) fuel env c = eval ((f, lam) :: Φ) G fuel env e :=
+  evalCode_eq_eval (define_rel hrel hvrel f lam) (define_vrel hrel hvrel f lam) fuel env (hc.mono (define_ext σ f lam))
 
 /-- …and so on for every further redefinition: `g` compiled between the first and the second
     redefinition of `f` sees the third body
@@ -191,20 +207,20 @@ example : runC 10 Store.empty []
     behaves like its source form in the table without `f`: its calls of `f` fail as an undefined
     function exactly like calls evaluated from the list form — the removed body is not kept alive
     by compiled callers. -/
-theorem undefine_takes_effect {Φ : FunTable} {σ : Store} {e : Expr} {c : Code}
-    (hrel : Rel Φ σ) (hc : Compiled σ e c) (f : String) (fuel : Nat) (env : Env) :
-    evalCode (undefine σ f) fuel env c = eval (undefTable Φ f) fuel env e :=
-  evalCode_eq_eval (undefine_rel hrel f) fuel env (hc.mono (undefine_ext σ f))
+theorem undefine_takes_effect {Φ : FunTable} {G : Env} {σ : Store} {e : Expr} {c : Code}
+    (hrel : Rel Φ σ) (hvrel : VRel G σ) (hc : Compiled σ e c) (f : String) (fuel : Nat) (env : Env) :
+    evalCode (undefine σ f) fuel env c = eval (undefTable Φ f) G fuel env e :=
+  evalCode_eq_eval (undefine_rel hrel f) (undefine_vrel hvrel f) fuel env (hc.mono (undefine_ext σ f))
 
 /-- **undefine_then_define.** `fmakunbound` followed (after any compilations in between, store `σ'`)
     by a new `defun`: callers compiled before the `fmakunbound`, between the two, or afterwards all
     use the new definition. -/
-theorem undefine_then_define {Φ : FunTable} {σ σ' : Store} {e : Expr} {c : Code}
+theorem undefine_then_define {Φ : FunTable} {G : Env} {σ σ' : Store} {e : Expr} {c : Code}
     (hc : Compiled σ e c) (f : String)
-    (hext : Ext (undefine σ f) σ') (hrel' : Rel (undefTable Φ f) σ') (lam : Lam)
+    (hext : Ext (undefine σ f) σ') (hrel' : Rel (undefTable Φ f) σ') (hvrel' : VRel G σ') (lam : Lam)
     (fuel : Nat) (env : Env) :
-    evalCode (define σ' f lam) fuel env c = eval ((f, lam) :: undefTable Φ f) fuel env e :=
-  evalCode_eq_eval (define_rel hrel' f lam) fuel env
+    evalCode (define σ' f lam) fuel env c = eval ((f, lam) :: undefTable Φ f) G fuel env e :=
+  evalCode_eq_eval (define_rel hrel' hvrel' f lam) (define_vrel hrel' hvrel' f lam) fuel env
     (((hc.mono (undefine_ext σ f)).mono hext).mono (define_ext σ' f lam))
 
 /-- `(defun f (x) (+ x 1)) (defun before (x) (f x)) (fmakunbound 'f) (before 10) (defun between (x) (f x))
@@ -239,9 +255,9 @@ example : runC 10 Store.empty []
 
 /-- **call_spelling.** Function names are symbols: two spellings with the same normal form (letter
     case, package prefix) are the same call — in the direct semantics… -/
-theorem call_spelling {f f' : String} (h : norm f = norm f') (Φ : FunTable) (fuel : Nat) (env : Env)
+theorem call_spelling {f f' : String} (h : norm f = norm f') (Φ : FunTable) (G : Env) (fuel : Nat) (env : Env)
     (args : List Expr) :
-    eval Φ fuel env (.call f args) = eval Φ fuel env (.call f' args) := by
+    eval Φ G fuel env (.call f args) = eval Φ G fuel env (.call f' args) := by
   cases fuel with
   | zero => simp [eval]
   | succ n => simp only [eval, h]
@@ -249,10 +265,11 @@ theorem call_spelling {f f' : String} (h : norm f = norm f') (Φ : FunTable) (fu
 /-- …and in the mechanism: a call site compiled under one spelling — possibly before the function
     exists, so that only a placeholder is registered — reaches the definition made under any other
     spelling (the placeholder is registered, patched and removed under the normal form). -/
-theorem call_spelling_compiled {f f' : String} (h : norm f = norm f') {Φ : FunTable} {σ σ' : Store}
-    (args : List Expr) (hext : Ext (compile σ (.call f args)).2 σ') (hrel : Rel Φ σ') (fuel : Nat) (env : Env) :
-    evalCode σ' fuel env (compile σ (.call f args)).1 = eval Φ fuel env (.call f' args) := by
-  rw [compile_correct _ hext hrel, call_spelling h]
+theorem call_spelling_compiled {f f' : String} (h : norm f = norm f') {Φ : FunTable} {G : Env} {σ σ' : Store}
+    (args : List Expr) (hext : Ext (compile σ (.call f args)).2 σ') (hrel : Rel Φ σ') (hvrel : VRel G σ')
+    (fuel : Nat) (env : Env) :
+    evalCode σ' fuel env (compile σ (.call f args)).1 = eval Φ G fuel env (.call f' args) := by
+  rw [compile_correct _ hext hrel hvrel, call_spelling h]
 
 /-- `(defun gd (x) (Fd x 1)) (defun fd (a b) (+ a b)) (gd 1) (CL-USER::GD 2) (fmakunbound 'FD) (gd 1)` -/
 example : runC 10 Store.empty []
@@ -277,12 +294,73 @@ example : runC 10 Store.empty []
 /-- **closure_redefinition.** `redefinition_takes_effect` includes the captured environment: after a
     `defun` evaluated inside a `let` (captured values `cenv`) every earlier code object runs the new
     body *with the new captured values*. -/
-theorem closure_redefinition {Φ : FunTable} {σ : Store} {e : Expr} {c : Code}
-    (hrel : Rel Φ σ) (hc : Compiled σ e c) (f : String) (lam : Lam) (cenv : List (String × Val))
+theorem closure_redefinition {Φ : FunTable} {G : Env} {σ : Store} {e : Expr} {c : Code}
+    (hrel : Rel Φ σ) (hvrel : VRel G σ) (hc : Compiled σ e c) (f : String) (lam : Lam) (cenv : List (String × Val))
     (fuel : Nat) (env : Env) :
     evalCode (define σ (norm f) { lam with env := cenv }) fuel env c
-      = eval ((norm f, { lam with env := cenv }) :: Φ) fuel env e :=
-  redefinition_takes_effect hrel hc (norm f) { lam with env := cenv } fuel env
+      = eval ((norm f, { lam with env := cenv }) :: Φ) G fuel env e :=
+  redefinition_takes_effect hrel hvrel hc (norm f) { lam with env := cenv } fuel env
+
+/-! ## global variables: definition order, assignments seen by compiled functions, closures -/
+
+/-- **assignment_takes_effect.** A code object compiled before a `defvar` / `defparameter` / `setq` of `x`
+    — in particular a caller of a function whose body was compiled into a pointer to the still unbound
+    cell of `x` — evaluated afterwards behaves like its source form with `x` having the new value: the
+    value is stored in the cell the name (and every compiled pointer) already has. -/
+theorem assignment_takes_effect {Φ : FunTable} {G : Env} {σ : Store} {e : Expr} {c : Code}
+    (hrel : Rel Φ σ) (hvrel : VRel G σ) (hc : Compiled σ e c) (x : String) (v : Val) (fuel : Nat) (env : Env) :
+    evalCode (setVar σ x v) fuel env c = eval Φ ((x, v) :: G) fuel env e :=
+  evalCode_eq_eval (setVar_rel hrel x v) (setVar_vrel hvrel x v) fuel env (hc.mono (setVar_ext σ x v))
+
+/-- **variable_definition_order.** A function definition and a variable definition (constant init form)
+    commute: whatever follows — calls, assignments, redefinitions, re-evaluations — gives the same
+    results whether the function or the variable came first… -/
+theorem variable_definition_order (fuel : Nat) (Φ : FunTable) (G : Env) (hist : List Expr)
+    (f : String) (lam : Lam) (k : SetKind) (x : String) (n : Int) (body : List Form) :
+    (run fuel Φ G hist (.defun f [] lam :: .setvar k x (.const n) :: body)).drop 2
+      = (run fuel Φ G hist (.setvar k x (.const n) :: .defun f [] lam :: body)).drop 2 := by
+  have hconst : ∀ Φ', eval Φ' G fuel [] (.const n) = eval Φ G fuel [] (.const n) := by
+    intro Φ'; cases fuel <;> simp [eval]
+  simp only [run, evalBinds, hconst]
+  split
+  · simp [run, evalBinds]
+  · split <;> simp [run, evalBinds]
+
+/-- …also through the mechanism, where the function compiled first may hold a pointer to the unbound
+    cell that the later variable definition fills -/
+theorem variable_definition_order_compiled (fuel : Nat)
+    (f : String) (lam : Lam) (k : SetKind) (x : String) (n : Int) (body : List Form) :
+    (runC fuel Store.empty [] (.defun f [] lam :: .setvar k x (.const n) :: body)).drop 2
+      = (runC fuel Store.empty [] (.setvar k x (.const n) :: .defun f [] lam :: body)).drop 2 := by
+  rw [runC_correct, runC_correct]
+  exact variable_definition_order fuel [] [] [] f lam k x n body
+
+/-- the reader compiled before the variable exists holds a pointer to the unbound cell (`gref 0`), a second
+    reader compiled afterwards looks the name up; both see the `defvar` and every later assignment:
+    `(defun get () count) (defun get2 () count) (get) (defvar count 0) (get) (setq count 1) (get) (get2)
+     (defvar count 7) (defparameter count (+ count 1)) (get) (get2)` -/
+example :
+    (define Store.empty "get" (.simple [] (.var "count"))).cells = [some ⟨⟨[], [], []⟩, [], .gref 0 "count", []⟩] ∧
+    runC 10 Store.empty []
+      [.defun "get" [] (.simple [] (.var "count")), .defun "get2" [] (.simple [] (.var "count")),
+       .expr (.call "get" []), .setvar .defvar "count" (.const 0), .again 0,
+       .setvar .setq "count" (.const 1), .again 0, .expr (.call "get2" []),
+       .setvar .defvar "count" (.const 7), .setvar .defparameter "count" (.prim .add (.var "count") (.const 1)),
+       .again 0, .again 1]
+    = [.val (.sym "get"), .val (.sym "get2"), .err (.unbound "count"), .val (.sym "count"), .val (.int 0),
+       .val (.int 1), .val (.int 1), .val (.int 1), .val (.sym "count"), .val (.sym "count"),
+       .val (.int 2), .val (.int 2)] := ⟨rfl, by decide⟩
+
+/-- a definition inside a `let` that binds the name of a global variable sees the captured value; the
+    same name defined again at top level sees the global one — so do the callers compiled in between:
+    `(defvar n 100) (let ((n 5)) (defun f () (+ n 0))) (defun g () (f)) (f) (g) (defun f () (+ n 1)) (f) (g)` -/
+example : runC 10 Store.empty []
+    [.setvar .defvar "n" (.const 100),
+     .defun "f" [("n", .const 5)] (.simple [] (.prim .add (.var "n") (.const 0))),
+     .defun "g" [] (.simple [] (.call "f" [])), .expr (.call "f" []), .expr (.call "g" []),
+     .defun "f" [] (.simple [] (.prim .add (.var "n") (.const 1))), .again 0, .again 1]
+    = [.val (.sym "n"), .val (.sym "f"), .val (.sym "g"), .val (.int 5), .val (.int 5),
+       .val (.sym "f"), .val (.int 101), .val (.int 101)] := by decide
 
 /-! ## what the hypotheses exclude: the two defects of the unchanged tree, in model terms
 
@@ -294,18 +372,32 @@ example :
     let Φ : FunTable := [("h", .simple ["a", "b"] (.prim .add (.var "a") (.var "b")))]
     let σ := define Store.empty "h" (.simple ["a", "b"] (.prim .add (.var "a") (.var "b")))
     evalCode σ 10 [] (.call (.cell 0) "h" []) = .err (.arity "h") ∧
-    eval Φ 10 [] (.call "h" [.const 1, .const 2]) = .val (.int 3) := by decide
+    eval Φ [] 10 [] (.call "h" [.const 1, .const 2]) = .val (.int 3) := by decide
 
 /-- defect 2 (a call site pointing to a cell that is no longer the name's cell, as produced when a
     redefinition re-points the name instead of sharing the cell): stale body -/
 example :
     let Φ : FunTable := [("f", .simple [] (.const 2))]
-    let σ : Store := ⟨[("f", 1)], [some ⟨⟨[], [], []⟩, [], .const 1, []⟩, some ⟨⟨[], [], []⟩, [], .const 2, []⟩]⟩
+    let σ : Store := ⟨[("f", 1)], [some ⟨⟨[], [], []⟩, [], .const 1, []⟩, some ⟨⟨[], [], []⟩, [], .const 2, []⟩], [], []⟩
     evalCode σ 10 [] (.call (.cell 0) "f" []) = .val (.int 1) ∧
-    eval Φ 10 [] (.call "f" []) = .val (.int 2) ∧ ¬ RefOK σ (.cell 0) "f" := by
+    eval Φ [] 10 [] (.call "f" []) = .val (.int 2) ∧ ¬ RefOK σ (.cell 0) "f" := by
   refine ⟨by decide, by decide, ?_⟩
   intro h
   have := h 0 rfl
   simp [Store.cellOf, List.lookup] at this
+
+/-- a variable whose name was re-pointed to a new cell by an assignment (instead of storing into the cell
+    it had): the compiled pointer keeps reading the old cell — excluded by `BodyOK` / `VRel` -/
+example :
+    let lam : Lam := .simple [] (.var "count")
+    let σ : Store := ⟨[("get", 0)], [some ⟨⟨[], [], []⟩, [], .gref 0 "count", []⟩], [("count", 1)], [some (.int 0), some (.int 1)]⟩
+    evalCode σ 10 [] (.call (.cell 0) "get" []) = .val (.int 0) ∧
+    eval [("get", lam)] [("count", .int 1)] 10 [] (.call "get" []) = .val (.int 1) ∧
+    ¬ BodyOK σ lam (.gref 0 "count") := by
+  refine ⟨by decide, by decide, ?_⟩
+  intro h
+  cases h with
+  | plain hc => cases hc
+  | gref _ _ hx => simp [Store.vcellOf, List.lookup] at hx
 
 end SlipVerif.Compile
